@@ -36,7 +36,7 @@ noncomputable def goMercK0 (A B : ℝ) (K K0 LatTS : Option ℝ) (sph : Bool) : 
 /-- the regenerated `Merc` body, evaluated: it cannot fail; defaults 0 for the false origin -/
 theorem go_merc_init_val (A B : ℝ) (K K0 LatTS Long0 X0 Y0 : Option ℝ) (sph : Bool) :
     ∃ k, Gen.Go.Merc_init A B K K0 LatTS Long0 X0 Y0 sph =
-      .ok (some k, some (Long0.getD 0), some (X0.getD 0), some (Y0.getD 0)) ∧ k = goMercK0 A B K K0 LatTS sph := by
+      .ok (Real.sqrt (1 - B / A * (B / A)), some k, some (Long0.getD 0), some (X0.getD 0), some (Y0.getD 0)) ∧ k = goMercK0 A B K K0 LatTS sph := by
   unfold Gen.Go.Merc_init goMercK0
   cases K <;> cases K0 <;> cases LatTS <;> cases Long0 <;> cases X0 <;> cases Y0 <;> cases sph <;>
     simp [Gen.Go.optNaN, Gen.Go.optNum, r_isNaN, r_sqrt, r_sin, r_cos, r_ofNat]
@@ -58,18 +58,19 @@ theorem js_merc_init_val (o : Js.Obj ℝ) :
 
 /-- **`Merc` constructor = merc.js `init`**: the port succeeds; the scale factor its closures capture is
 the `k0` proj4js stores; false origin, central meridian, eccentricity agree. Needs: `long0` given
-(proj4js has no default), `lat_ts`, `k0`, `k` absent or non-zero, `E` as `DeriveConstants` leaves it. -/
+(proj4js has no default), `lat_ts`, `k0`, `k` absent or non-zero. The eccentricity the closures use is the one
+the constructor recomputes from `a` and `b` on BOTH sides (after the fix of `Merc`: before, the port's closures
+read the `E` of `DeriveConstants`, which differs under `+R_A`). -/
 theorem go_init_merc_eq_js (s : Model.SR ℝ) (o : Js.Obj ℝ) (h : Same s o)
-    (hl : Model.gNaN s.long0 = false) (hts : NZ s.latTS) (hk0 : NZ s.k0) (hk : NZ s.k)
-    (he : s.e = Real.sqrt (1 - Model.gnum s.b / Model.gnum s.a * (Model.gnum s.b / Model.gnum s.a))) :
+    (hl : Model.gNaN s.long0 = false) (hts : NZ s.latTS) (hk0 : NZ s.k0) (hk : NZ s.k) :
     ∃ s' c, Model.mercInit s = .ok (s', c) ∧
       Js.num (Js.mercInit o).a = Model.gnum s'.a ∧ Js.num (Js.mercInit o).x0 = Model.gnum s'.x0 ∧
       Js.num (Js.mercInit o).y0 = Model.gnum s'.y0 ∧ Js.num (Js.mercInit o).long0 = Model.gnum s'.long0 ∧
-      Js.num (Js.mercInit o).k0 = c.k0 ∧ (Js.mercInit o).e = s'.e ∧ (Js.mercInit o).sphere = s'.sphere := by
+      Js.num (Js.mercInit o).k0 = c.k0 ∧ (Js.mercInit o).e = c.e ∧ (Js.mercInit o).sphere = s'.sphere := by
   obtain ⟨k, hgo, hk0v⟩ := go_merc_init_val (Model.gnum s.a) (Model.gnum s.b) s.k s.k0 s.latTS s.long0 s.x0 s.y0 s.sphere
   obtain ⟨ja, jl, js, jx, jy, je, jk⟩ := js_merc_init_val o
   have hm : Model.mercInit s = .ok ({ s with long0 := some (s.long0.getD 0), x0 := some (s.x0.getD 0), y0 := some (s.y0.getD 0) },
-      { (Model.Consts.nanC : Model.Consts ℝ) with k0 := k }) := by
+      { (Model.Consts.nanC : Model.Consts ℝ) with k0 := k, e := Real.sqrt (1 - Model.gnum s.b / Model.gnum s.a * (Model.gnum s.b / Model.gnum s.a)) }) := by
     unfold Model.mercInit; rw [hgo]; rfl
   refine ⟨_, _, hm, ?_, ?_, ?_, ?_, ?_, ?_, ?_⟩
   · rw [ja, h.a]; rfl
@@ -82,29 +83,27 @@ theorem go_init_merc_eq_js (s : Model.SR ℝ) (o : Js.Obj ℝ) (h : Same s o)
   · rw [jk, hk0v, h.latts, h.k0, h.k, h.sphere, h.b, h.a, truthyO_of_NZ hts, truthyO_of_NZ hk0, truthyO_of_NZ hk]
     unfold goMercK0
     cases s.latTS <;> cases s.k0 <;> cases s.k <;> simp [gNaN_some, gNaN_none, Js.num, Model.gnum, go_msfnz_eq_js]
-  · rw [je, h.b, h.a, he]; rfl
+  · rw [je, h.b, h.a]; rfl
   · rw [js, h.sphere]
 
 /-- Mercator, constructor + forward closure, no hypothesis on constants -/
 theorem go_merc_fwd_eq_js' (s : Model.SR ℝ) (o : Js.Obj ℝ) (h : Same s o)
     (hl : Model.gNaN s.long0 = false) (hts : NZ s.latTS) (hk0 : NZ s.k0) (hk : NZ s.k)
-    (he : s.e = Real.sqrt (1 - Model.gnum s.b / Model.gnum s.a * (Model.gnum s.b / Model.gnum s.a)))
     (lon lat : ℝ) (z : Option ℝ)
     (h90 : ¬ (90 < lat * 57.29577951308232088)) (hm90 : ¬ (lat * 57.29577951308232088 < -90)) :
     okOf (Model.mercInit s >>= fun sc => Model.mercFwd sc.1 sc.2 lon lat) =
       xyOf (Js.mercForward (Js.mercInit o) ⟨lon, lat, z⟩) := by
-  obtain ⟨s', c, hc, ha, hx, hy, hlo, hkk, hee, hsp⟩ := go_init_merc_eq_js s o h hl hts hk0 hk he
+  obtain ⟨s', c, hc, ha, hx, hy, hlo, hkk, hee, hsp⟩ := go_init_merc_eq_js s o h hl hts hk0 hk
   rw [hc, bind_ok_eq]
   exact go_merc_fwd_eq_js s' c _ lon lat z h90 hm90 ha hx hy hlo hkk hee hsp
 
 /-- Mercator, constructor + inverse closure -/
 theorem go_merc_inv_eq_js' (s : Model.SR ℝ) (o : Js.Obj ℝ) (h : Same s o)
     (hl : Model.gNaN s.long0 = false) (hts : NZ s.latTS) (hk0 : NZ s.k0) (hk : NZ s.k)
-    (he : s.e = Real.sqrt (1 - Model.gnum s.b / Model.gnum s.a * (Model.gnum s.b / Model.gnum s.a)))
     (x y : ℝ) (z : Option ℝ) :
     okOf (Model.mercInit s >>= fun sc => Model.mercInv sc.1 sc.2 x y) =
       xyOf (Js.mercInverse (Js.mercInit o) ⟨x, y, z⟩) := by
-  obtain ⟨s', c, hc, ha, hx, hy, hlo, hkk, hee, hsp⟩ := go_init_merc_eq_js s o h hl hts hk0 hk he
+  obtain ⟨s', c, hc, ha, hx, hy, hlo, hkk, hee, hsp⟩ := go_init_merc_eq_js s o h hl hts hk0 hk
   rw [hc, bind_ok_eq]
   exact go_merc_inv_eq_js s' c _ x y z ha hx hy hlo hkk hee hsp
 
